@@ -33,6 +33,25 @@ theorem runOps_facts (ops : List HOp) : ∀ (s : Sts),
       simp only [okHdr, trailersSet]
       simp only [List.append_assoc, List.singleton_append] at this
       exact this
+    | setStatusHeader c =>
+      simp only [runOps, hstep]
+      split
+      · have := ih s; simp only [okHdr, trailersSet]; exact this
+      · have := ih { s with spoof := (match s.spoof with | some x => some x | none => some c) }
+        simp only [okHdr, trailersSet]
+        exact this
+
+/-- without a status-header collision nothing is put under the protocol's status header name -/
+theorem runOps_noSpoof (ops : List HOp) : ∀ (s : Sts), noStatusHeader ops = true → (runOps s ops).1.spoof = s.spoof := by
+  induction ops with
+  | nil => intro s _; rfl
+  | cons op rest ih =>
+    intro s h
+    cases op with
+    | setHeader md => simp only [noStatusHeader] at h; simp only [runOps, hstep]; split <;> simp [ih _ h]
+    | sendHeader md => simp only [noStatusHeader] at h; simp only [runOps, hstep]; split <;> simp [ih _ h]
+    | setTrailer md => simp only [noStatusHeader] at h; simp only [runOps, hstep]; simp [ih _ h]
+    | setStatusHeader c => simp [noStatusHeader] at h
 
 theorem unaryCode_ne_zero (e : HErr) : unaryCode e ≠ 0 := by
   cases e with
